@@ -1,8 +1,8 @@
 """Maps claimed property ids to the module that generates and executes their sessions."""
 
-from . import c12, c13, c19, construct_props
+from . import c12, c13, c14, c19, construct_props
 
 PROPS = {}
-for _m in (construct_props, c12, c13, c19):
+for _m in (construct_props, c12, c13, c14, c19):
     for _p in _m.TIERS:
         PROPS[_p] = _m
